@@ -35,6 +35,8 @@ pub enum Step {
     ReplyNegotiated { payloads: Vec<String> },
     /// close the connection: clean (close_notify / EOF / exit 0) or abrupt (reset / kill)
     Close { abrupt: bool },
+    /// signal end of stream but keep the connection (see `PeerIo::half_close`); the script goes on
+    HalfClose,
     /// keep the connection open and idle until the peer goes away (or for at most this long)
     HoldMs(u64),
     /// record a named time stamp
@@ -71,6 +73,10 @@ pub trait PeerIo: Send {
     /// read some bytes; an empty vector means EOF
     async fn read_some(&mut self) -> std::io::Result<Vec<u8>>;
     async fn close(&mut self, abrupt: bool);
+    /// end of stream without closing the connection: TLS close_notify with the TCP connection
+    /// left open, SSH channel EOF without channel close, the child's stdout closed while the
+    /// process lives on
+    async fn half_close(&mut self);
 }
 
 /// nanoseconds on CLOCK_MONOTONIC (shared between the harness and its child processes)
@@ -326,6 +332,10 @@ pub async fn run_script_persisting<P: PeerIo>(
                 io.close(*abrupt).await;
                 marks.marks.push(("closed".into(), mono_ns()));
                 break;
+            }
+            Step::HalfClose => {
+                io.half_close().await;
+                marks.marks.push(("half-closed".into(), mono_ns()));
             }
             Step::HoldMs(ms) => {
                 let deadline = Instant::now() + Duration::from_millis(*ms);
